@@ -53,12 +53,12 @@ Definition accepted (w : xworld) (e : xevent) : bool :=
   end.
 
 (* None = every step agrees; Some i = first disagreeing event *)
-Fixpoint xcheck_from (rI rP : bool) (i : nat) (w : xworld) (es : list xevent) (os : list xobs) : option nat :=
+Fixpoint xcheck_from (rI rP cl : bool) (i : nat) (w : xworld) (es : list xevent) (os : list xobs) : option nat :=
   match es, os with
   | [], _ => None
   | e :: es', o :: os' =>
-      let '(w', l) := xstep rI rP w e in
-      if xobs_eqb (obs_of (accepted w e) w' l) o then xcheck_from rI rP (S i) w' es' os' else Some i
+      let '(w', l) := xstep rI rP cl w e in
+      if xobs_eqb (obs_of (accepted w e) w' l) o then xcheck_from rI rP cl (S i) w' es' os' else Some i
   | _ :: _, [] => Some i
   end.
 
@@ -67,20 +67,22 @@ Definition mk_pols (ps : list z4) : list xpol :=
 
 Definition xcase := (list z4 * nat * list xevent * list xobs)%type.
 
-(* per case: for each variant (I,P) in the order (f,f) (f,t) (t,f) (t,t): 0 if it agrees, else 1 + index of the first
-   disagreeing event *)
+(* per case: for each variant (I,P,clip) in the order (f,f) (f,t) (t,f) (t,t) without clipping, then the same four with
+   clipping: 0 if it agrees, else 1 + index of the first disagreeing event *)
 Definition xverdict (c : xcase) : list nat :=
   match c with (ps, ptn, es, os) =>
-    map (fun v : bool * bool => match xcheck_from (fst v) (snd v) 0 (xworld0 (mk_pols ps) ptn) es os with None => O | Some i => S i end)
-        [(false, false); (false, true); (true, false); (true, true)]
+    map (fun v : bool * bool * bool =>
+           match xcheck_from (fst (fst v)) (snd (fst v)) (snd v) 0 (xworld0 (mk_pols ps) ptn) es os with None => O | Some i => S i end)
+        [(false, false, false); (false, true, false); (true, false, false); (true, true, false);
+         (false, false, true); (false, true, true); (true, false, true); (true, true, true)]
   end.
 Definition xverdicts (cs : list xcase) : list (list nat) := map xverdict cs.
 
 (* the model's own observations of a trace (replay/debugging aid) *)
-Fixpoint xtrace (rI rP : bool) (w : xworld) (es : list xevent) : list xobs :=
+Fixpoint xtrace (rI rP cl : bool) (w : xworld) (es : list xevent) : list xobs :=
   match es with
   | [] => []
-  | e :: r => let '(w', l) := xstep rI rP w e in obs_of (accepted w e) w' l :: xtrace rI rP w' r
+  | e :: r => let '(w', l) := xstep rI rP cl w e in obs_of (accepted w e) w' l :: xtrace rI rP cl w' r
   end.
 
 (* write admission: (d at lookup, coordinator clock, minTime the implementation used, rows (t, admitted)) *)
